@@ -54,11 +54,11 @@ static void check_sequence(Ctx &c, const std::string &unit, const PPolyND<1> &pp
 
 static void explore_sequences(Ctx &c, long &id) {
   const bool th = c.args.thorough();
-  static const double starts[4] = {0.0, 0.3, -1.5, 100.0};
+  static const double starts[6] = {0.0, 0.3, -1.5, 100.0, 5000.0, -7000.0};
   static const double lengths[6] = {0.0, 9.5367431640625e-07, 0.5, 1.0, 2.5, 10.0};
   PPolyND<1> pp = PPolyND<1>::zero({0.0, 1.0}, 1);
-  const int KMAX = th ? 4096 : 1024;
-  for (int si = 0; si < 4; ++si) for (int li = 0; li < 6; ++li) for (int blk = 0; blk < 16; ++blk) {
+  const int KMAX = th ? 16384 : 1024;
+  for (int si = 0; si < 6; ++si) for (int li = 0; li < 6; ++li) for (int blk = 0; blk < 16; ++blk) {
     long my = id++;
     if (!c.mine(my)) continue;
     std::string unit = str(my);
@@ -69,6 +69,8 @@ static void explore_sequences(Ctx &c, long &id) {
       double base = len / k;
       const double fac[5] = {1.0, 1.0 + 9.094947017729282e-13, 1.0 - 9.094947017729282e-13, 1.0 + 1e-7, 1.0 - 1e-7};
       for (int f = 0; f < 5; ++f) { check_sequence(c, unit, pp, start, end, base * fac[f], f == 0 ? "dt = length/k" : "dt nearly divides the interval"); ++ncase; }
+      // k full steps that fall short of the end by a chosen remainder on either side of 1e-6 (whatever the magnitude of the end time)
+      if (k <= 512) { const double rem[5] = {5e-7, 2e-6, 2e-5, 2e-4, 2e-3}; for (int r = 0; r < 5; ++r) if (len > 4 * rem[r]) { check_sequence(c, unit, pp, start, end, (len - rem[r]) / k, "k steps fall short of the end by a chosen remainder"); ++ncase; } }
     }
     if (blk == 0) {
       const double fixed[5] = {1.5 * len, 1e-3, 0.01, 0.1, 0.3};
@@ -121,6 +123,28 @@ template <int S, int D> static void explore_lengths(Ctx &c, long &id, const GL &
     } }
 }
 
+// ---------- (2b) trajectories with velocity jumps: the length is the left Riemann sum with RIGHT-continuous speed ----------
+template <int DIM> static void explore_polylines(Ctx &c, long &id) {
+  typedef PPolyND<DIM> PP; typedef typename PP::MatrixType Mat;
+  const std::vector<std::vector<double>> bps = {{0.0, 1.0, 2.0, 3.0}, {-2.0, -1.5, 0.0, 0.25, 2.0}, {100.0, 100.5, 101.0}};
+  for (size_t bi = 0; bi < bps.size(); ++bi) for (int nc = 1; nc <= 3; ++nc) {
+    long my = id++; if (!c.mine(my)) continue; std::string unit = str(my); if (!c.begin(unit)) continue;
+    const auto &b = bps[bi]; const int n = (int)b.size() - 1; Mat C(n * nc, DIM);
+    for (int s = 0; s < n; ++s) for (int k = 0; k < nc; ++k) for (int d = 0; d < DIM; ++d) C(s * nc + k, d) = (double)(((s * 5 + k * 3 + d) % 7) - 3) * (k == 1 ? (s + 1) : 1);   // speeds jump at every breakpoint
+    PP pp(b, C, nc);
+    struct R { double a, bb; }; std::vector<R> ranges = {{b.front(), b.back()}, {b[1], b.back()}, {b.front(), b[n - 1]}, {b[1] + 0.125, b[n - 1] + 0.125}};
+    for (const R &r : ranges) for (double dt : {1.0, 0.5, 0.25, 0.125, 0.3}) {
+      std::vector<double> seq = pp.generateTimeSequence(r.a, r.bb, dt); LD riemann = 0;
+      for (size_t i = 0; i + 1 < seq.size(); ++i) riemann += (LD)pp.evaluate(seq[i], 1).norm() * ((LD)seq[i + 1] - (LD)seq[i]);
+      double rep = pp.getTrajectoryLength(r.a, r.bb, dt); ++c.st.comparisons;
+      if (fabsl((LD)rep - riemann) > 1e-12L * (fabsl(riemann) + 1e-300L)) { c.st.violate(unit, fmt("PPolyND<%d> with velocity jumps (breakpoints #%zu, %d coefficients): getTrajectoryLength(%.6g,%.6g,%.4g) = %.17g is not the left Riemann sum of speed %.17Lg", DIM, bi, nc, r.a, r.bb, dt, rep, riemann), {{"what", "arc-length"}}); break; }
+      auto bt = pp.evaluate(seq, 1); for (size_t i = 0; i < seq.size(); ++i) { auto v = pp.evaluate(seq[i], 1); if (!bits_equal(v.data(), bt[i].data(), DIM)) { c.st.violate(unit, "batch evaluate differs from pointwise on a discontinuous trajectory"); break; } }
+    }
+    ++c.st.evaluations; if (!c.st.seen(fmt("poly/%d/%zu/%d", DIM, bi, nc)) && nc >= 2) ++c.st.nontrivial; c.st.cls("arc length/polyline with velocity jumps");
+    if (nc == 2 && bi == 0) c.st.sample(fmt("unit %s: PPolyND<%d> polyline with speed jumps at breakpoints {0,1,2,3}: getTrajectoryLength over 4 ranges x dt in {1,0.5,0.25,0.125,0.3} (samples land exactly on breakpoints) vs left Riemann sum with right-continuous speed", unit.c_str(), DIM));
+  }
+}
+
 // ---------- (3) factories ----------
 template <int DIM, int ORDER> static void explore_factories(Ctx &c, long &id) {
   typedef PPolyND<DIM, ORDER> PP;
@@ -159,6 +183,7 @@ int main(int argc, char **argv) {
     explore_sequences(c, id);
     explore_lengths<2, 1>(c, id, gl); explore_lengths<3, 1>(c, id, gl); explore_lengths<4, 1>(c, id, gl);
     explore_lengths<2, 3>(c, id, gl); explore_lengths<3, 3>(c, id, gl); explore_lengths<4, 3>(c, id, gl);
+    explore_polylines<1>(c, id); explore_polylines<2>(c, id);
     explore_factories<1, Eigen::Dynamic>(c, id); explore_factories<3, Eigen::Dynamic>(c, id); explore_factories<1, 8>(c, id); explore_factories<3, 4>(c, id);
   });
 }
